@@ -271,6 +271,145 @@ void run_c04 (void)
 		}
 }
 
+/* =================================================================== C07 */
+
+static void __attribute__ ((noinline)) perturb_stack (int pat)
+{	volatile unsigned char junk [96 * 1024] ;
+	for (size_t i = 0 ; i < sizeof (junk) ; i += 1) junk [i] = (unsigned char) (pat + i) ;
+}
+
+static void perturb_heap (int pat)
+{	void *blocks [256] ;
+	for (int i = 0 ; i < 256 ; i++)
+	{	size_t n = 16 + ((size_t) i * 977 + pat * 131) % 70000 ;
+		blocks [i] = malloc (n) ; memset (blocks [i], pat ^ i, n) ;
+		}
+	for (int i = 0 ; i < 256 ; i++) free (blocks [i]) ;
+}
+
+/* segments: nseg lengths in frames; fvar bit k: segment k uses sf_writef_T; upd bit k: SFC_UPDATE_HEADER_NOW after segment k */
+static int c07_write (const Fmt *f, int ch, int type, const void *buf, const long *seg, int nseg, unsigned fvar, unsigned upd, long *accepted)
+{	SF_INFO info ; SNDFILE *sf ; long off = 0 ; int rc ;
+	md_reset (&rt_dev) ;
+	rt_info (&info, f, ch, fmt_default_rate (f)) ;
+	sf = md_open (&rt_dev, SFM_WRITE, &info) ;
+	if (sf == NULL) return -1 ;
+	*accepted = 0 ;
+	for (int k = 0 ; k < nseg ; k++)
+	{	const char *p = (const char *) buf + off * ch * type_size [type] ;
+		sf_count_t w ;
+		if (fvar & (1u << k)) w = vl_write (sf, type, 1, p, seg [k]) ;
+		else { w = vl_write (sf, type, 0, p, seg [k] * ch) ; if (w > 0) w /= ch ; }
+		if (w > 0) *accepted += w ;
+		off += seg [k] ;
+		if (upd & (1u << k)) INLIB (sf_command (sf, SFC_UPDATE_HEADER_NOW, NULL, 0)) ;
+		}
+	INLIB (rc = sf_close (sf)) ;
+	return rc ;
+}
+
+static struct { int fi, ch, type, g ; long N ; uint64_t hash ; sf_count_t len ; unsigned char *bytes ; int ok ; void *buf ; } c07_base = { -1 } ;
+
+static void c07_baseline (int fi, const Fmt *f, int ch, int type, int g, long N)
+{	long acc, seg [1] = { N } ;
+	if (c07_base.fi == fi && c07_base.ch == ch && c07_base.type == type && c07_base.g == g && c07_base.N == N) return ;
+	free (c07_base.buf) ; free (c07_base.bytes) ;
+	c07_base.fi = fi ; c07_base.ch = ch ; c07_base.type = type ; c07_base.g = g ; c07_base.N = N ;
+	c07_base.buf = malloc (N * ch * type_size [type] + 1) ;
+	gen_fill (g, type, c07_base.buf, N * ch, f->width ? f->width : 16, f->is_float) ;
+	c07_base.ok = (c07_write (f, ch, type, c07_base.buf, seg, 1, 0, 0, &acc) == 0) ;
+	c07_base.hash = md_hash (&rt_dev) ;
+	c07_base.len = rt_dev.len ;
+	c07_base.bytes = malloc (rt_dev.len + 1) ; memcpy (c07_base.bytes, rt_dev.data, rt_dev.len) ;
+}
+
+static void c07_case (int fi, const Fmt *f, int ch, int type, int g, long N, const long *seg, int nseg, unsigned fvar, unsigned upd, int perturb, const char *devclass)
+{	long acc = 0 ; int rc ;
+	c07_baseline (fi, f, ch, type, g, N) ;
+	if (! c07_base.ok) { vl_note ("baseline write failed / refused") ; vl_end (0, 3) ; return ; }
+	if (perturb) { perturb_heap (perturb * 37) ; perturb_stack (perturb * 91) ; }
+	rc = c07_write (f, ch, type, c07_base.buf, seg, nseg, fvar, upd, &acc) ;
+	if (rc != 0) vl_violation (rt_sig ("%s|%s|%s|close-or-open-failed", rt_fam (f), rt_chclass (ch), devclass), "rc=%d", rc) ;
+	else if (md_hash (&rt_dev) != c07_base.hash || rt_dev.len != c07_base.len)
+	{	sf_count_t k = 0, m = rt_dev.len < c07_base.len ? rt_dev.len : c07_base.len ;
+		while (k < m && rt_dev.data [k] == c07_base.bytes [k]) k ++ ;
+		vl_violation (rt_sig ("%s|%s|%s|bytes-differ", rt_fam (f), rt_chclass (ch), devclass),
+			"file differs from the single-call file: lengths %lld vs %lld, first difference at byte %lld (accepted %ld of %ld frames)",
+			(long long) rt_dev.len, (long long) c07_base.len, (long long) k, acc, N) ;
+		}
+	vl_end (1, vl_hash_u64 (md_hash (&rt_dev), VL_H0)) ;
+}
+
+static int c07_splits (long *sp, int B, long S, long N)
+{	long cand [16] ; int nc = 0, n = 0 ;
+	cand [nc++] = 1 ; cand [nc++] = 2 ; cand [nc++] = 3 ;
+	if (B > 1) { cand [nc++] = B - 1 ; cand [nc++] = B ; cand [nc++] = B + 1 ; cand [nc++] = 2 * B - 1 ; cand [nc++] = 2 * B ; cand [nc++] = 2 * B + 1 ; }
+	cand [nc++] = S - 1 ; cand [nc++] = S ; cand [nc++] = S + 1 ; cand [nc++] = N - 1 ;
+	for (int i = 0 ; i < nc ; i++)
+	{	int dup = 0 ;
+		if (cand [i] <= 0 || cand [i] >= N) continue ;
+		for (int j = 0 ; j < n ; j++) if (sp [j] == cand [i]) dup = 1 ;
+		if (! dup) sp [n++] = cand [i] ;
+		}
+	/* sort */
+	for (int i = 0 ; i < n ; i++) for (int j = i + 1 ; j < n ; j++) if (sp [j] < sp [i]) { long t = sp [i] ; sp [i] = sp [j] ; sp [j] = t ; }
+	return n ;
+}
+
+void run_c07 (void)
+{	static const int gens [] = { G_POSCODE, G_NOISE1, G_ALTITEM, -1 } ;
+	for (int fi = 0 ; fi < fmt_count ; fi++)
+	{	const Fmt *f = &fmt_list [fi] ;
+		if (f->needs_path) continue ;
+		if ((f->format & SF_FORMAT_ENDMASK) == SF_ENDIAN_CPU) continue ;
+		if (! vl_opts.thorough && (f->format & SF_FORMAT_ENDMASK) == SF_ENDIAN_LITTLE) continue ;	/* quick: file + be */
+		for (int ch = 1 ; ch <= 2 ; ch++)
+		{	int rate = fmt_default_rate (f) ;
+			if (! rt_accepts (f, ch, rate)) continue ;
+			int B = fmt_block (f, ch, rate) ;
+			for (int type = 0 ; type < T_NTYPES ; type++)
+			{	long S = 8192 / type_size [type] / ch ;
+				long N = B > 1 ? 2 * B + B / 2 + 1 : S + 5, sp [16] ; int nsp ;
+				if (B > 1 && N < S + 2 && B < 1000) N = S + 2 + (S + 2) % 2 + 1 ;
+				nsp = c07_splits (sp, B, S, N) ;
+				for (int gi = 0 ; gens [gi] >= 0 ; gi++)
+				{	int g = gens [gi] ; long seg [4] ;
+					if (! vl_opts.thorough && gi > 0 && type != T_SHORT && type != T_FLOAT) continue ;
+#define C07(devclass, nseg, fvar, upd, perturb, ...) \
+	if (vl_case ("C07 fmt=%s ch=%d type=%s gen=%s N=%ld " __VA_ARGS__)) \
+	{	vl_root_count (f->name) ; c07_case (fi, f, ch, type, g, N, seg, nseg, fvar, upd, perturb, devclass) ; }
+					/* 0 splits */
+					seg [0] = N ;
+					C07 ("frames-variant", 1, 1, 0, 0, "whole frames-variant", f->name, ch, type_names [type], gen_names [g], N)
+					C07 ("rerun-perturbed", 1, 0, 0, 1, "whole perturb=1", f->name, ch, type_names [type], gen_names [g], N)
+					C07 ("rerun-perturbed", 1, 0, 0, 2, "whole perturb=2", f->name, ch, type_names [type], gen_names [g], N)
+					C07 ("update-header", 1, 0, 1, 0, "whole update-after", f->name, ch, type_names [type], gen_names [g], N)
+					for (int a = 0 ; a < nsp ; a++)
+					{	seg [0] = sp [a] ; seg [1] = N - sp [a] ;
+						C07 ("split", 2, 0, 0, 0, "split=%ld", f->name, ch, type_names [type], gen_names [g], N, sp [a])
+						C07 ("split+frames-variant", 2, 1, 0, 0, "split=%ld fvar=1", f->name, ch, type_names [type], gen_names [g], N, sp [a])
+						C07 ("split+frames-variant", 2, 2, 0, 0, "split=%ld fvar=2", f->name, ch, type_names [type], gen_names [g], N, sp [a])
+						C07 ("split+update-header", 2, 0, 1, 0, "split=%ld upd=1", f->name, ch, type_names [type], gen_names [g], N, sp [a])
+						for (int b = a + 1 ; b < nsp ; b++)
+						{	seg [0] = sp [a] ; seg [1] = sp [b] - sp [a] ; seg [2] = N - sp [b] ;
+							C07 ("split2", 3, 0, 0, 0, "split=%ld,%ld", f->name, ch, type_names [type], gen_names [g], N, sp [a], sp [b])
+							if (vl_opts.thorough)
+							{	C07 ("split2+update-header", 3, 0, 3, 0, "split=%ld,%ld upd=3", f->name, ch, type_names [type], gen_names [g], N, sp [a], sp [b])
+								C07 ("split2+frames-variant", 3, 5, 0, 0, "split=%ld,%ld fvar=5", f->name, ch, type_names [type], gen_names [g], N, sp [a], sp [b])
+								for (int c = b + 1 ; c < nsp ; c++)
+								{	seg [0] = sp [a] ; seg [1] = sp [b] - sp [a] ; seg [2] = sp [c] - sp [b] ; seg [3] = N - sp [c] ;
+									C07 ("split3", 4, 0, 0, 0, "split=%ld,%ld,%ld", f->name, ch, type_names [type], gen_names [g], N, sp [a], sp [b], sp [c])
+									}
+								seg [0] = sp [a] ; seg [1] = sp [b] - sp [a] ; seg [2] = N - sp [b] ;
+								}
+							}
+						}
+					}
+				}
+			}
+		}
+}
+
 /* =================================================================== dispatch */
 
 void run_c04 (void) ;
@@ -287,5 +426,4 @@ void harness_run (void)
 	else { fprintf (stderr, "h_rt: unknown property %s\n", vl_opts.prop) ; exit (3) ; }
 }
 
-void run_c07 (void) { }
 void run_c10 (void) { }
